@@ -10,14 +10,14 @@ package http
 // streamLTXSnapshot: the position reported to the caller is exactly (MaxTXID, PostApplyChecksum) of the snapshot
 // that DB.WriteSnapshotTo produced, and that happens after the LTX frame header was put on the stream.
 //@ func (s *Server) streamLTXSnapshot [C06,C01]
-//@   requires  s != nil && s.store != nil && dbWF(db) && implements(w, http.Flusher)
+//@   requires  s != nil && s.store != nil && dbWF(db) && locksWF(db) && implements(w, http.Flusher)
 //@   ghost framed bool = false
 //@   ghost snapN int = 0
 //@   ghost snapTXID ltx.TXID = 0
 //@   ghost snapPost ltx.Checksum = 0
 //@   on call litefs.WriteStreamFrame assert !framed && snapN == 0 && typeis(arg1, *litefs.LTXStreamFrame) ; then framed = (ret0 == nil)
 //@   on call DB.WriteSnapshotTo assert framed && snapN == 0 && arg0 == db ; then snapN = (ret2 == nil ? 1 : snapN), snapTXID = ret0.MaxTXID, snapPost = ret1.PostApplyChecksum
-//@   ensures   dbWF(db)
+//@   ensures   dbWF(db) && locksWF(db)
 //@   proves    err == nil ==> snapN == 1 && newPos.TXID == snapTXID && newPos.PostApplyChecksum == snapPost
 //@   ensures   err != nil ==> newPos.TXID == 0 && newPos.PostApplyChecksum == 0
 //@   nopanic
@@ -27,7 +27,7 @@ package http
 // pre-apply checksum equals the client's checksum. Every other non-error path sends a full snapshot. The position
 // returned on the incremental path is the (MaxTXID, PostApplyChecksum) of the verified file.
 //@ func (s *Server) streamLTX [C06,C01,C09]
-//@   requires  s != nil && s.store != nil && dbWF(db) && implements(w, http.Flusher)
+//@   requires  s != nil && s.store != nil && dbWF(db) && locksWF(db) && implements(w, http.Flusher)
 //@   ghost opened bool = false
 //@   ghost verified bool = false
 //@   ghost snap int = 0
@@ -41,7 +41,7 @@ package http
 //@   on call Server.streamLTXSnapshot assert snap == 0 && !framed && arg3 == db && (txID == 1 || !opened || (verified && dec.header.PreApplyChecksum != preApplyChecksum)) ; then snap = 1, snapOK = (ret1 == nil), snapTXID = ret0.TXID, snapPost = ret0.PostApplyChecksum
 //@   on call litefs.WriteStreamFrame assert snap == 0 && txID != 1 && opened && verified && dec.header.PreApplyChecksum == preApplyChecksum && (typeis(arg1, *litefs.LTXStreamFrame) ? !framed : copied) ; then framed = (framed || ret0 == nil)
 //@   on call io.Copy assert framed && !copied && snap == 0 ; then copied = (ret1 == nil)
-//@   ensures   dbWF(db)
+//@   ensures   dbWF(db) && locksWF(db)
 //@   ensures   err != nil ==> newPos.TXID == 0 && newPos.PostApplyChecksum == 0
 //@   proves    err == nil ==> (snap == 1 && snapOK && !framed) || (snap == 0 && copied)
 //@   proves    err == nil && snap == 1 ==> newPos.TXID == snapTXID && newPos.PostApplyChecksum == snapPost
@@ -60,7 +60,7 @@ package http
 //@ func (s *Server) streamDB [C06,C01]
 //@   requires  s != nil && storeWF(s.store) && posMap != nil && implements(w, http.Flusher)
 //@   ghost sent int = 0
-//@   loop 1 invariant db != nil && dbWF(db) && s != nil && s.store != nil && posMap != nil && implements(w, http.Flusher)
+//@   loop 1 invariant db != nil && dbWF(db) && locksWF(db) && s != nil && s.store != nil && posMap != nil && implements(w, http.Flusher)
 //@   on call Server.streamLTX assert arg3 == db && arg4 != 0 && clientPos.TXID < dbPos.TXID && arg4 == clientPos.TXID + 1 && arg5 == clientPos.PostApplyChecksum
 //@   on call Server.streamLTX assert posMap[name].TXID > dbPos.TXID ==> arg4 == 1 && arg5 == 0
 //@   on call Server.streamLTX assert posMap[name].TXID == dbPos.TXID && posMap[name].PostApplyChecksum != dbPos.PostApplyChecksum ==> arg4 == 1 && arg5 == 0
